@@ -17,6 +17,7 @@ import BB.Proofs.Body
 import BB.Proofs.DictEq
 import BB.Model.Describe
 import BB.Model.Tools
+import BB.Proofs.Heap
 
 namespace BB.C09
 open BB BB.BP
@@ -144,5 +145,51 @@ theorem addCopies_get (base : Element) (m : Val × Rat) (hv : base.validate = .o
       have := ih (k + 1) _ h j (by omega)
       rw [show k + (j + 1) + 1 = k + 1 + j + 1 by omega]
       exact this
+
+/-! ### the reference level: who owns what (BB.Model.Heap)
+
+The theorems above are about values; aliasing cannot even be expressed there.  `BB.Model.Heap`
+models the object graph itself — every list, dict, array and object a BluePrint / Element /
+Sequence is made of, with the copies (deep, shallow, none) each storing or deriving method makes —
+as programs over two checked primitives.  The statements below hold for *every* program over those
+primitives, hence for the programs that model broadbean's methods; that those programs produce
+the sharing the real methods produce is what the correspondence check observes with `id()`. -/
+
+open BB.Heap in
+/-- after any history of public calls: references never leave their owner except to frozen cells
+    (nested filter dicts, arrays — kinds no method writes into), every cell has an owner that was
+    handed out, every user-held object is live, and differently named user-held objects have
+    different owners -/
+theorem heap_separation (calls : List Call) : Inv (calls.foldl State.call {}) := inv_history calls
+
+open BB.Heap in
+/-- **independence**: after any history, whatever is then called on *other* objects — mutators,
+    deriving calls binding other names, read-only calls on anything — everything observable of the
+    object named `ty` (the whole tree hanging from it, validation caches aside) stays what it was -/
+theorem heap_independent (hist later : List Call) (ty : String) (y : Addr)
+    (hy : (ty, y) ∈ (hist.foldl State.call {}).vars)
+    (hother : ∀ c ∈ later, match c with | .act tx _ => tx ≠ ty | .derive nm _ => nm ≠ ty | .query _ _ => True) (n : Nat) :
+    unfold n (later.foldl State.call (hist.foldl State.call {})).heap y = unfold n (hist.foldl State.call {}).heap y :=
+  independent hist later ty y hy hother n
+
+open BB.Heap in
+/-- a deriving call (copy, `+`, addBluePrint's stored copy, the sweep tools) leaves its sources —
+    every object that existed — exactly as they were -/
+theorem heap_derive_leaves_sources (st : State) (hi : Inv st) (name : String) (p : Prog Addr) (y : Addr)
+    (cy : Cell) (hy : st.heap[y]? = some cy) (n : Nat) :
+    unfold n (st.derive name p).heap y = unfold n st.heap y := derive_frame st hi name p y cy hy n
+
+/-! non-vacuity: a concrete history through the modelled methods (blueprint, element, stored copy,
+    element copy edited, sequence, forge) runs without fault and ends with four user-held objects -/
+
+open BB.Heap in
+def exHist : List Call :=
+  [ .derive "b" bpNew, .act "b" (bpMutate 1), .derive "e" elNew,
+    .act "e" (fun e => elAddBP e "1" 8), .derive "e2" (elCopy 11), .act "e2" (fun e => elMutateBP 2 e "1"),
+    .derive "s" sqNew, .act "s" (fun s => sqAddElement 3 s "1" 11), .query "s" (sqForge 4) ]
+
+open BB.Heap in
+example : (exHist.foldl State.call {}).fault = false ∧
+    (exHist.foldl State.call {}).vars = [("b", 8), ("e", 11), ("e2", 34), ("s", 39)] := by decide
 
 end BB.C09
